@@ -13,6 +13,8 @@ use std::hash::{Hash, Hasher};
 ///   [20..24) len     (u32 LE)  tape length / 8 for enum
 ///   [24.. )  payload           tape octets / u64 LE index
 pub const SCRATCH_SIZE: usize = 1 << 20;
+/// per-shard bound on the number of distinct non-trivial case hashes that are recorded
+pub const NONTRIVIAL_CAP: usize = 500_000;
 pub const SCRATCH_HDR: usize = 24;
 
 #[derive(Clone, Copy)]
@@ -156,7 +158,8 @@ impl Cx {
     }
     #[inline]
     pub fn nontrivial<H: Hash + ?Sized>(&mut self, h: &H) {
-        if !self.frozen {
+        // the distinct count is conservative: each shard stops recording at NONTRIVIAL_CAP hashes
+        if !self.frozen && self.nontrivial.len() < NONTRIVIAL_CAP {
             self.nontrivial.insert(hash64(h));
         }
     }
